@@ -69,7 +69,8 @@ def run(tier):
     quick = tier == "quick"
     plan = [(1, "two", 4, None), (2, "one", 6 if quick else 7, 1500 if quick else 6000), (3, "two", 7 if quick else 9, 1500 if quick else None),
             (2, "collide", 5 if quick else 6, 600 if quick else None), (2, "nulls", 5 if quick else 6, 600 if quick else None),
-            (2, "pairs", 5 if quick else 6, 1000 if quick else 4000)]
+            (2, "pairs", 5 if quick else 6, 1000 if quick else 4000),
+            (2, "esc", 5 if quick else 6, 600 if quick else None), (2, "escnull", 5 if quick else 6, 800 if quick else None)]
     scen = []
     for n, ks, maxrows, cap in plan:
         for seq in gen(res, n, ks, maxrows, cap, rng):
